@@ -28,7 +28,7 @@ def copyRestOld (st : St α) (chunks : List α) : St α :=
 def rwReadFromOld (cfg : Cfg α) (st : St α) (chunks : List α) : St α :=
   if !st.wroteHeader && decide (cfg.minLen > 0) then
     (fun res : St α × List α × Nat => if res.2.2 = 0 then copyRestOld res.1 res.2.1 else res.1)
-      (sniffLoop cfg (nonEmpty cfg chunks) 512 st)
+      (sniffLoop cfg (nonEmpty cfg chunks) sniffLen st)
   else copyRestOld st (nonEmpty cfg chunks)
 
 end
